@@ -11,8 +11,8 @@ RULE = ("live runs of all ten optimizer classes (objectives with ties and platea
         "best-so-far non-decreasing, elitism => last slot equals the record, greedy family: slot-wise fitness non-decreasing "
         "and a slot changes only to its own trial when trial >= parent, stored fitness = objective re-evaluated on the stored "
         "phenotype; every trace replayed through the Coq loop model. distinct = configuration incl. seed.")
-THEORIES, TRUSTED, ASSUMPTIONS = _loop.THEORIES, _loop.TRUSTED, _loop.ASSUMPTIONS
-gen = _loop.gen
+THEORIES, TRUSTED, ASSUMPTIONS = _loop.THEORIES + _loop.ADAPT_THEORIES, _loop.TRUSTED, _loop.ASSUMPTIONS
+gen = _loop.gen_greedy
 
 
 def predicate(tr, rep):
